@@ -295,7 +295,7 @@ func runRoam(s *script, c Case) {
 		key := fmt.Sprintf("roam:%s:%s", c.S, loop)
 		// move: make the relay see this socket (and wait for the echo so that the downlink has the new address)
 		moved := false
-		for try := 0; try < 4 && !moved; try++ {
+		for try := 0; try < 8 && !moved; try++ {
 			hello := roamPayload(r, 40)
 			sent[string(hello)] = true
 			if err := e.send(hello); err != nil {
@@ -303,7 +303,7 @@ func runRoam(s *script, c Case) {
 				return
 			}
 			for {
-				_, p, ok, err := e.recv(700 * time.Millisecond)
+				_, p, ok, err := e.recv(1500 * time.Millisecond)
 				if !ok {
 					break
 				}
